@@ -366,3 +366,55 @@ def thorough_override(case, i=0):
     if M <= 2:
         return {"delay": 2, "tie": 1}
     return {"delay": 1, "tie": 2}
+
+
+# -- S-park: one resident observation with a long workflow, two more that are
+#    tiered out to cold storage while it runs and come back one after the
+#    other (cold rate 1-2: moves take several steps and overlap)
+
+def park_scope(level="quick"):
+    wf_long = dag("chain3", [5, 5, 5], [0, 0])
+    wf_short = dag("single", [1])
+    colds = [(100, 1), (100, 2), (12, 1)]
+    bs = [(5, 1), (2, 2)]                  # (dur, rate): sizes 5, 4
+    cs = [(6, 1), (3, 2), (2, 3)]          # sizes 6
+    if level == "thorough":
+        bs += [(3, 1), (1, 3)]
+        cs += [(5, 1), (4, 1)]
+        colds += [(100, 3), (9, 2)]
+    for cold in colds:
+        for sb in (0, 1, 3):
+            for sc in (1, 2, 4):
+                for db, rb in bs:
+                    for dc, rc in cs:
+                        obs = [mkobs("a", 0, 2, 1, 1, 1, "wa"),
+                               mkobs("b", sb, db, rb, 1, 1, "wb"),
+                               mkobs("c", sc, dc, rc, 1, 1, "wc")]
+                        cfg = mkcfg(CLUSTERS[3][0], obs, (10, 3), cold, 3, 3)
+                        yield "S-park", mkcase(cfg, {"wa": wf_long,
+                                                     "wb": wf_short,
+                                                     "wc": wf_short})
+
+
+def park_algs(case, level="quick"):
+    return [{"kind": "queue"}, {"kind": "batch", "p": 1, "min": 1}]
+
+
+# -- S-offgrid: coarser timestep units with planned starts that are not whole
+#    multiples of the unit (fractional est)
+
+def offgrid_scope(level="quick"):
+    wa = dag("chain2", [2, 1], [1])
+    wb = dag("single", [2])
+    units = [5, "minutes"] if level != "thorough" else [5, "minutes", 2, 7]
+    for unit in units:
+        f = world.unit_factor(unit)
+        offs = sorted({1, f // 2, f - 1} - {0})
+        for M in (1, 2):
+            for s1 in [0] + offs + [f + o for o in offs[:2]]:
+                for s2 in [f * 2 + o for o in [0] + offs[:2]]:
+                    obs = [mkobs("a", s1, f * 2, 1, 1, 1, "wa"),
+                           mkobs("b", s2, f, 1, 1, 1, "wb")]
+                    cfg = mkcfg(CLUSTERS[M][0], obs, (100 * f, 10),
+                                (100 * f, 10), 2, 2, timestep=unit)
+                    yield "S-offgrid", mkcase(cfg, {"wa": wa, "wb": wb})
